@@ -33,6 +33,11 @@ Decided structurally (clauses that are necessary for the property; the rendered 
 * widths  - the width map may be a list grown in column order (`if i < len(W): W[i] = max(..) else: W.append(len)`) or a
             guarded store (`if len(text) > W.setdefault(i, 0): W[i] = len(text)`); the usage table may be built by a
             package function that __repr__ delegates to (report and rows handed over as arguments).
+* round 6 - the row writer may be a closure nested in _Repr.repr (fields / table / children / theme read from the enclosing
+            scope); __get_field_value may assign `result` in every arm of an if/elif/else and return it once (each
+            assignment is judged like a return); the column loop of _TextTableRow.repr may be split into
+            `for w, cell in zip(width, self.cells)` + `for w in width[len(self.cells):]`; a cell text that carries colour
+            codes (colored(..) / '\\x1b[..') is refuted - len() counts the invisible characters.
 * depth   - indentation multiplied by a value read off the printed task alone (`len(task.all_parents)`, a helper that
             only receives the task) is refuted: the level is relative to the printed tasks and only the recursion knows it.
 
@@ -114,11 +119,55 @@ def _is_param(f, e, idx=None):
 
 
 # ===================================================================================================== rows / indent
+def _subtree(ctx):
+    """the recursive row writer: __print_task_subtree, or - when it was turned into a closure - the nested def of
+    _Repr.repr that calls itself (fields / table / children / theme are then read from the enclosing scope)"""
+    from sa.model import AnchorMissing
+    prog = ctx.prog
+    got = getattr(ctx, '_c20_subtree', None)
+    if got is not None:
+        return got
+    try:
+        f = prog.func(SUBTREE)
+    except AnchorMissing:
+        top = prog.func(REPR)
+        f = None
+        for n in ast.walk(top.node):
+            if isinstance(n, ast.FunctionDef) and n is not top.node:
+                try:
+                    g = prog.func(REPR + '.' + n.name)
+                except AnchorMissing:
+                    continue
+                if facts.calls_named(g, g.name) and facts.calls_named(top, g.name):
+                    f = g
+        if f is None:
+            raise
+    ctx._c20_subtree = f
+    return f
+
+
+def _subtree_qual(ctx):
+    from sa.model import AnchorMissing
+    try:
+        return _subtree(ctx).qual
+    except AnchorMissing:
+        return None
+
+
+def _bind_sub(call, f, roles):
+    """bind_args for a call of the row writer; variables it reads from the enclosing scope count as handed over unchanged"""
+    b = bind_args(call, f)
+    if b is not None and roles:
+        for name in roles.get('_closure', ()):
+            b.setdefault(name, ast.Name(id=name, ctx=ast.Load()))
+    return b
+
+
 def _subtree_roles(ctx):
     """parameter roles of __print_task_subtree read off the top-level call in _Repr.repr (whose own parameter names
     tasks/fields/children/theme are public API): role -> parameter name of the subtree function"""
     prog = ctx.prog
-    top, f = prog.func(REPR), prog.func(SUBTREE)
+    top, f = prog.func(REPR), _subtree(ctx)
     calls = [c for c in facts.calls_named(top, f.name)]
     if len(calls) != 1:
         return None, calls
@@ -140,6 +189,20 @@ def _subtree_roles(ctx):
                     roles['task'] = p
         elif isinstance(a, ast.Constant) and isinstance(a.value, int) and not isinstance(a.value, bool):
             roles['level'] = p
+    if f.qual.startswith(top.qual + '.'):
+        # a closure: what is not a parameter is read from _Repr.repr's scope under the same name
+        used = {n.id for n in walk_no_nested(f.node) if isinstance(n, ast.Name)}
+        own = set(f.params) | {d.var for d in flow_of(f).defs if d.node is not None}
+        closure = set()
+        for role in ('fields', 'children', 'theme'):
+            if role not in roles and (role in used or role == 'children') and role not in own and role in top.params:
+                roles[role] = role
+                closure.add(role)
+        for tname in tabs:
+            if 'table' not in roles and tname in used and tname not in own:
+                roles['table'] = tname
+                closure.add(tname)
+        roles['_closure'] = closure
     return roles, calls
 
 
@@ -191,7 +254,7 @@ def _walk_shape(ctx):
     if getattr(ctx, '_c20_walk', 'unset') != 'unset':
         return ctx._c20_walk
     try:
-        prog.func(SUBTREE)
+        _subtree(ctx)
         ctx._c20_walk = None
         return None
     except AnchorMissing:
@@ -453,7 +516,8 @@ def _rows(ctx):
             o.undecided(top, top.node, 'repr', W)
         return
     roles, top_calls = _subtree_roles(ctx)
-    f = prog.func(SUBTREE)
+    f = _subtree(ctx)
+    SUBQ = f.qual
     top = prog.func(REPR)
     need = ('task', 'fields', 'table', 'children')
     if roles is None or any(r not in roles for r in need):
@@ -466,7 +530,7 @@ def _rows(ctx):
     def sub(_):
         tables = {P['table']}
         for val in (True, False):
-            c = Counter(ctx, stop=[SUBTREE])
+            c = Counter(ctx, stop=[SUBQ], free=P.get('_closure', ()))
             em = c.summary(f, tables, {P['children']: val})
             tag = f"children={'on' if val else 'off'}"
             if '!irregular' in em:
@@ -475,13 +539,13 @@ def _rows(ctx):
             _verdict(o_row, f, f.node, f"new_row {tag}", f"[{tag}] table.new_row", em.get('new_row', {}), c_const(1))
             _verdict(o_row, f, f.node, f"new_cell {tag}", f"[{tag}] table.new_cell", em.get('new_cell', {}), {(P['fields'],): (1, 1)})
             want = {(P['task'] + '.children',): (1, 1)} if val else {}
-            _verdict(o_rec, f, f.node, f"recursion {tag}", f"[{tag}] recursive call", em.get('call:' + SUBTREE, {}), want)
+            _verdict(o_rec, f, f.node, f"recursion {tag}", f"[{tag}] recursive call", em.get('call:' + SUBQ, {}), want)
             if not val:
                 continue
             # order: the row is opened before its cells, the cells are complete before any child row is opened
             cfg = cfg_of(f)
             own = lambda ev: [cfg.node_containing(n) for g, n in c.event_nodes.get(ev, []) if g is f]
-            rows_, cells, recs = own('new_row'), own('new_cell'), own('call:' + SUBTREE)
+            rows_, cells, recs = own('new_row'), own('new_cell'), own('call:' + SUBQ)
             helper_events = any(g is not f for ev in ('new_row', 'new_cell') for g, _n in c.event_nodes.get(ev, []))
             if helper_events:
                 o_row.site(f, f.node, "row/cells emitted by a helper that receives the table (order inside the helper not compared)")
@@ -510,7 +574,7 @@ def _rows(ctx):
         if not calls:
             o.refute(f, f.node, 'no recursion', "__print_task_subtree never calls itself: descendants are not printed")
         for c in calls:
-            b = bind_args(c, f)
+            b = _bind_sub(c, f, P)
             if b is None:
                 o.undecided(f, c, c, "recursive call with */** arguments")
                 continue
@@ -544,18 +608,18 @@ def _rows(ctx):
     def header(o):
         tables = _table_names(ctx, top)
         cfg, fl = cfg_of(top), flow_of(top)
-        c = Counter(ctx, stop=[SUBTREE])
+        c = Counter(ctx, stop=[SUBQ], free=P.get('_closure', ()))
         em = c.summary(top, tables, {})
         if '!irregular' in em:
             o.undecided(top, top.node, 'repr', "emission inside a loop left by break/return: " + '; '.join(c.notes))
             return
         _verdict(o, top, top.node, 'header new_row', "header table.new_row", em.get('new_row', {}), c_const(1))
         _verdict(o, top, top.node, 'header new_cell', "header table.new_cell", em.get('new_cell', {}), {('fields',): (1, 1)})
-        _verdict(o, top, top.node, 'subtree call', "call of __print_task_subtree", em.get('call:' + SUBTREE, {}),
+        _verdict(o, top, top.node, 'subtree call', "call of __print_task_subtree", em.get('call:' + SUBQ, {}),
                  {(top.params[0],): (1, 1)})
         call = top_calls[0]
         cn = cfg.node_containing(call)
-        b = bind_args(call, f)
+        b = _bind_sub(call, f, P)
         ex = Expander(prog, top, ctx.typer)
         fors = cfg.enclosing_fors(cn)
         a = b.get(P['task'])
@@ -667,7 +731,7 @@ def _cell_values(ctx, f, tables, depth=0):
         helper = Counter(ctx)
         for c in [n for n in walk_no_nested(f.node) if isinstance(n, ast.Call)]:
             g = helper.target_of(c, f)
-            if g is None or g.qual == f.qual or g.qual == SUBTREE:
+            if g is None or g.qual == f.qual or g.qual == _subtree_qual(ctx):
                 continue
             b = bind_args(c, g, drop_self=g.kind == 'method')
             if b is None:
@@ -900,7 +964,7 @@ def _indent(ctx):
             o.undecided(top, top.node, 'repr', W)
             return
         roles, top_calls = _subtree_roles(ctx)
-        f, top = prog.func(SUBTREE), prog.func(REPR)
+        f, top = _subtree(ctx), prog.func(REPR)
         if roles is None or any(r not in roles for r in ('task', 'fields', 'table')):
             o.undecided(top, top.node, 'repr', "call of __print_task_subtree in _Repr.repr not understood")
             return
@@ -1096,7 +1160,33 @@ def _enumerate_subst(fors, ex, cfg):
         if m and isinstance(fo.target, ast.Tuple) and len(fo.target.elts) == 2 and all(isinstance(t, ast.Name) for t in fo.target.elts):
             i, c = fo.target.elts
             sub[c.id] = ast.Subscript(value=ex.expand(m['x'], cfg.node_of(fo)), slice=ast.Name(id=i.id, ctx=ast.Load()), ctx=ast.Load())
+        # for a, b in zip(X, Y)  ->  a = X[__i], b = Y[__i];   for a in X[k:]  ->  a = X[__i]   (synthetic index __i)
+        mz = match("zip($*xs)", fo.iter)
+        if mz and isinstance(fo.target, ast.Tuple) and len(fo.target.elts) == len(mz['xs']) and all(isinstance(t, ast.Name) for t in fo.target.elts) \
+                and not any(isinstance(x, ast.Starred) for x in mz['xs']):
+            for t, x in zip(fo.target.elts, mz['xs']):
+                sub[t.id] = ast.Subscript(value=ex.expand(x, cfg.node_of(fo)), slice=ast.Name(id='__i', ctx=ast.Load()), ctx=ast.Load())
+        if isinstance(fo.target, ast.Name) and isinstance(fo.iter, ast.Subscript) and isinstance(fo.iter.slice, ast.Slice) \
+                and isinstance(fo.iter.value, ast.Name) and fo.iter.slice.step is None:
+            sub[fo.target.id] = ast.Subscript(value=ast.Name(id=fo.iter.value.id, ctx=ast.Load()), slice=ast.Name(id='__i', ctx=ast.Load()), ctx=ast.Load())
     return sub
+
+
+def _zip_remainder_pair(loops, wp, sn, cfg):
+    """the column loop split in two: `for w, cell in zip(width, self.cells)` (the columns the row has a cell for) followed by
+    `for w in width[len(self.cells):]` (the remaining ones): together one round per entry of width"""
+    if len(loops) != 2:
+        return False
+    a, b = loops
+    if match(f"{wp}[len({sn}.cells):]", a.iter) or match(f"{wp}[len({sn}):]", a.iter):
+        a, b = b, a
+    if not (match(f"zip({wp}, {sn}.cells)", a.iter) or match(f"zip({sn}.cells, {wp})", a.iter)):
+        return False
+    if not (match(f"{wp}[len({sn}.cells):]", b.iter) or match(f"{wp}[len({sn}):]", b.iter)):
+        return False
+    if cfg.enclosing_fors(cfg.node_of(a)) or cfg.enclosing_fors(cfg.node_of(b)) or cfg.conditions(cfg.node_of(a)) or cfg.conditions(cfg.node_of(b)):
+        return False
+    return True
 
 
 def _index_loop(fo, idx_name, len_ok, what):
@@ -1685,7 +1775,12 @@ def _row_render(ctx):
                 loops.append(fs[-1])
         loop_ok = True
         idx = None
-        for lp in loops:
+        pair = _zip_remainder_pair(loops, wp, sn, cfg)
+        if pair:
+            idx = '__i'
+            o.site(f, loops[0], f"columns with a cell: `{src(loops[0].iter)}`, the remaining ones: `{src(loops[1].iter)}` - together one "
+                                f"round per entry of `{wp}`")
+        for lp in ([] if pair else loops):
             tgt = lp.target
             idx = tgt.id if isinstance(tgt, ast.Name) else (tgt.elts[0].id if isinstance(tgt, ast.Tuple) and isinstance(tgt.elts[0], ast.Name) else None)
             q = _index_loop(lp, idx, lambda b: bool(match(f"len({wp})", b)), 'column') if idx else None
@@ -1712,7 +1807,10 @@ def _row_render(ctx):
                 o.undecided(f, f.node, f"emissions {tag}", "the row appends something that is neither a padded cell nor a constant border, "
                                                            "or leaves its loop early: " + '; '.join(c.notes))
                 continue
-            if loop_ok:
+            if loop_ok and pair:
+                want_cells = {(c.loop_atom(f, lp),): (1, 1) for lp in loops}
+                _verdict(o, f, f.node, f"cell per column {tag}", f"[{tag}] a cell is appended", em.get('cell', {}), want_cells)
+            elif loop_ok:
                 _verdict(o, f, f.node, f"cell per column {tag}", f"[{tag}] a cell is appended", em.get('cell', {}), {(wp,): (1, 1)})
             bc = c_norm(em.get('border', {}))
             row_tests = []
@@ -1756,6 +1854,9 @@ def _row_render(ctx):
                     else:
                         o2.undecided(f, n, wd, f"pad width `{src(wd)}` is not `{wp}[i] + constant`")
                     continue
+                if isinstance(m['i'], ast.Name) and m['i'].id == '__i' and idx != '__i':
+                    o2.undecided(f, n, wd, f"the pad width `{src(v)[:60]}` comes from a zip / slice loop the rule cannot align with the columns")
+                    continue
                 if not (isinstance(m['i'], ast.Name) and m['i'].id == idx):
                     o2.refute(f, n, wd, f"cell of column `{idx}` is padded to the width of column `{src(m['i'])}`")
                     continue
@@ -1770,6 +1871,9 @@ def _row_render(ctx):
                     cell = _cell_of(tparts[0].value)
                     if cell is None or not (match(sn, cell[0])):
                         o2.undecided(f, n, text, f"`{src(tparts[0])}` is not the text of a cell of this row")
+                        continue
+                    if isinstance(cell[1], ast.Name) and cell[1].id == '__i' and idx != '__i':
+                        o2.undecided(f, n, text, "the cell comes from a zip / slice loop the rule cannot align with the columns")
                         continue
                     if not (isinstance(cell[1], ast.Name) and cell[1].id == idx):
                         o2.refute(f, n, text, f"column `{idx}` prints cell `{src(cell[1])}`")
@@ -2297,8 +2401,7 @@ def _links(ctx):
         ex = Expander(prog, h, ctx.typer, inline=False)
         table = {'predecessors': (many_pat, 'predecessors'), 'successors': (many_pat, 'successors'), 'parent': (one_pat, 'parent')}
         found = {k: False for k in table}
-        for r in [n for n in walk_no_nested(h.node) if isinstance(n, ast.Return) and n.value is not None]:
-            rn = cfg.node_of(r)
+        for r, rvalue, rn in [x for x in _virtual_returns(h) if x[1] is not None]:
             keys = []
             for tt, p in cfg.conditions(rn):
                 for a, ap in facts.split_conj(ex.expand(tt, cfg.node_containing(tt)), p):
@@ -2311,7 +2414,7 @@ def _links(ctx):
                             and (isinstance(a.ops[0], ast.In) == ap) and not keys:
                         keys = [const_str(x) for x in a.comparators[0].elts if const_str(x) in table]
             for key in keys:
-                _link_column(o, h, r, rn, key, table, found, ex, fld, t, one_pat, many_pat, as_one)
+                _link_column(o, h, r, rn, key, table, found, ex, fld, t, one_pat, many_pat, as_one, rvalue)
         for k, ok in found.items():
             if not ok:
                 if any(isinstance(n, ast.Constant) and n.value == k for n in ast.walk(h.node)):
@@ -2391,6 +2494,22 @@ def _link_helpers(ctx):
     return H
 
 
+def _virtual_returns(f):
+    """[(statement, value, cfg node)]: the returns of f; a `return name` whose name is assigned on several branches
+    (`result = ..` in every arm of an if/elif/else, one `return result` at the end) stands for those assignments"""
+    cfg, fl = cfg_of(f), flow_of(f)
+    out = []
+    for r in [n for n in walk_no_nested(f.node) if isinstance(n, ast.Return)]:
+        rn = cfg.node_of(r)
+        if isinstance(r.value, ast.Name):
+            ds = fl.reaching(r.value.id, rn)
+            if len(ds) > 1 and all(d.kind == 'assign' and d.value is not None and d.node is not None for d in ds):
+                out += [(d.stmt, d.value, d.node) for d in ds]
+                continue
+        out.append((r, r.value, rn))
+    return out
+
+
 def _specialise(v, fld, key):
     """v with the conditional expressions that test `fld == '<const>'` decided for fld == key"""
     class Tr(ast.NodeTransformer):
@@ -2404,17 +2523,18 @@ def _specialise(v, fld, key):
     return Tr().visit(_copy.deepcopy(v))
 
 
-def _link_column(o, h, r, rn, key, table, found, ex, fld, t, one_pat, many_pat, as_one=None):
+def _link_column(o, h, r, rn, key, table, found, ex, fld, t, one_pat, many_pat, as_one=None, rvalue=None):
     """verdict for the return r of __get_field_value that prints column `key`"""
     found[key] = True
     pat, attr = table[key]
-    v = _specialise(ex.expand(r.value, rn), fld, key)
+    rvalue = rvalue if rvalue is not None else r.value
+    v = _specialise(ex.expand(rvalue, rn), fld, key)
     if pat is None and key != 'parent':
         # the list helper is folded into this function: `sep.join(<one id> for x in t.<attr>)`
         joins = [m for m in (match("$s.join($c)", x) for x in ast.walk(v) if isinstance(x, ast.Call)) if m
                  and isinstance(m['c'], (ast.GeneratorExp, ast.ListComp)) and len(m['c'].generators) == 1]
         if len(joins) != 1:
-            o.undecided(h, r, r.value, f"column `{key}` is not printed through the linked-id helpers")
+            o.undecided(h, r, rvalue, f"column `{key}` is not printed through the linked-id helpers")
             return
         m = joins[0]
         g = m['c'].generators[0]
@@ -2445,24 +2565,24 @@ def _link_column(o, h, r, rn, key, table, found, ex, fld, t, one_pat, many_pat, 
         if any(match(f"{t}.{attr}.id", x) for x in ast.walk(v)):
             o.site(h, r, f"{key}: inlined linked-id expression for {t}.{attr}")
         elif any(match(f"{t}.id", x) for x in ast.walk(v)) and not any(match(f"{t}.{attr}", x) for x in ast.walk(v)):
-            o.refute(h, r, r.value, f"column `{key}` prints `{src(v)[:80]}` - the id of the printed task itself, not of {t}.{attr}")
+            o.refute(h, r, rvalue, f"column `{key}` prints `{src(v)[:80]}` - the id of the printed task itself, not of {t}.{attr}")
         else:
-            o.undecided(h, r, r.value, f"column `{key}` is not printed through the linked-id helpers")
+            o.undecided(h, r, rvalue, f"column `{key}` is not printed through the linked-id helpers")
         return
     hits = [match(pat, x) for x in ast.walk(v) if isinstance(x, ast.Call)]
     hits = [m for m in hits if m]
     other_pat = one_pat if pat is many_pat else many_pat
     if not hits:
         if other_pat is not None and any(match(other_pat, x) for x in ast.walk(v) if isinstance(x, ast.Call)):
-            o.refute(h, r, r.value, f"column `{key}` is printed by the wrong helper: `{src(v)[:80]}`")
+            o.refute(h, r, rvalue, f"column `{key}` is printed by the wrong helper: `{src(v)[:80]}`")
         else:
-            o.undecided(h, r, r.value, f"column `{key}` is not printed through the linked-id helpers")
+            o.undecided(h, r, rvalue, f"column `{key}` is not printed through the linked-id helpers")
         return
     m = hits[0]
     if match(t, m['a']) and match(f"{t}.{attr}", m['b']):
         o.site(h, r, f"{key}: {src(v)[:80]}")
     else:
-        o.refute(h, r, r.value, f"column `{key}` prints `{src(v)[:80]}`; expected the helper applied to ({t}, {t}.{attr})")
+        o.refute(h, r, rvalue, f"column `{key}` prints `{src(v)[:80]}`; expected the helper applied to ({t}, {t}.{attr})")
 
 
 # ============================================================================================================== usage
@@ -2992,13 +3112,21 @@ def _field_texts(ctx):
         t, fld = f.params[0], f.params[1]
         cfg = cfg_of(f)
         rets = [n for n in walk_no_nested(f.node) if isinstance(n, ast.Return)]
-        for r in rets:
-            rn = cfg.node_of(r)
+        exf = Expander(prog, f, ctx.typer, inline=False)
+        for r, rvalue, rn in _virtual_returns(f):
             if not cfg.is_reachable(rn):
                 continue
-            v = _str_valued(ctx, f, r.value, rn) if r.value is not None else False
+            v = _str_valued(ctx, f, rvalue, rn) if rvalue is not None else False
+            xv = exf.expand(rvalue, rn) if rvalue is not None else None
+            coloured = [x for x in ast.walk(xv) if (isinstance(x, ast.Call) and isinstance(x.func, ast.Name) and x.func.id in ('colored', 'colored_text'))
+                        or (isinstance(x, ast.Constant) and isinstance(x.value, str) and '\x1b' in x.value)] if xv is not None else []
+            if coloured:
+                o.refute(f, r, coloured[0], f"the cell text carries colour codes (`{src(coloured[0])[:60]}`): the table measures and pads cells with "
+                                            f"len(text), which counts the invisible escape characters - the column is sized and this cell "
+                                            f"padded for a text longer than what is seen, so the lines no longer have the same visible width")
+                continue
             if v is True:
-                o.site(f, r, src(r.value)[:70])
+                o.site(f, r, src(rvalue)[:70])
             elif v is False:
                 o.refute(f, r, r, f"`{src(r)[:80]}` hands the raw value to the table: a non-str cell text breaks len() / concatenation "
                                   f"(or prints None)")
@@ -3102,6 +3230,22 @@ def _lookup_guarded(ex, cfg, f, t, name_expr, cn):
     path_x = []
     for tt, p in cfg.conditions(cn):
         path_x += facts.split_conj(ex.expand(tt, cfg.node_containing(tt)), p)
+    # `attributes = t.__dict__ ... if name not in attributes`: the container is an alias, the tested name stays as written
+    path_c = []
+    for a_, p_ in path:
+        b_ = a_
+        while isinstance(b_, ast.UnaryOp) and isinstance(b_.op, ast.Not):
+            b_ = b_.operand
+        if isinstance(b_, ast.Compare) and len(b_.ops) == 1 and isinstance(b_.ops[0], (ast.In, ast.NotIn)):
+            nb = ast.Compare(left=b_.left, ops=b_.ops, comparators=[ex.expand(b_.comparators[0], cfg.node_containing(b_))])
+            neg = 0
+            c_ = a_
+            while isinstance(c_, ast.UnaryOp) and isinstance(c_.op, ast.Not):
+                neg += 1
+                c_ = c_.operand
+            path_c.append((nb, p_ if neg % 2 == 0 else not p_))
+        else:
+            path_c.append((a_, p_))
     e = ex.expand(name_expr, cn)
 
     def membership(a, ap):
@@ -3142,7 +3286,7 @@ def _lookup_guarded(ex, cfg, f, t, name_expr, cn):
                 return False
         return True
 
-    if has(path, name_expr):
+    if has(path_c, name_expr):
         if via_hasattr:
             return 'hasattr', _HASATTR_MSG.format(test=src(via_hasattr[0]), t=t)
         return 'ok', f"read under `{src(name_expr)} in {t}.__dict__`"
